@@ -126,6 +126,8 @@ def run(pid, tier):
         # very wide groups (beyond any internal batch or cap of a few dozen), and a group under a small descriptor limit
         for w in ([150] if tier == "quick" else [129, 150, 257]):
             scenarios.append(runlib.wide_scenario(w, chk.seed, barrier=True))
+        for s_, pos in ((3, "first"), (6, "middle")):
+            scenarios.append(runlib.barrier_scenario(s_, pos, chk.seed, chatty=True))
         sc = runlib.barrier_scenario(30, "middle", chk.seed)
         sc["prlimit"] = ["--nofile=256:256"]
         sc["label"] += "-nofile256"
